@@ -26,6 +26,11 @@ func stripPtr(td *gen.TD) (*gen.TD, int) {
 // of this type, and whether the type is a collection whose elements are not
 // structs (the code then applies the field's tags to elements as well: 6.18).
 func tagCandidates(td *gen.TD) (cands []string, numKind string, softColl bool) {
+	if td.Kind == "iface" {
+		// the documentation defines the validators for values, not for static types: they apply to the value an
+		// interface{} field holds (required: a nil interface is not set)
+		return []string{"required", "nonzero", "positive", "min", "max", "nonzero"}, "iface", false
+	}
 	base, nptr := stripPtr(td)
 	sh := base.Shape()
 	if sh.IsLeaf() {
@@ -66,7 +71,9 @@ var (
 	floatParams = []string{"0", "1", "1.5", "42", "-2.25", "1e2", ".5", "+1.5", "-0.5", "1E-3", "0x1p-1", "-0", "100.5", "-1"}
 	// duration bounds: unit syntax (compound, fractional, signed) and plain numbers counting seconds (integral,
 	// fractional, negative, exponent form)
-	durParams = []string{"0", "1s", "10ns", "1500ms", "2h", "-1s", "1", "10", "1.5",
+	// bounds of interface{} fields: spellings every numeric kind reads (the held value may be signed, unsigned or a float)
+	ifaceParams = []string{"0", "1", "2", "5", "42", "100"}
+	durParams   = []string{"0", "1s", "10ns", "1500ms", "2h", "-1s", "1", "10", "1.5",
 		"0.5", "-0.5", "-1.5", ".25", "1e-3", "2.5", "-2", "-1", "0.000000001", "7200", "1E1",
 		"1h30m", "1.5h", "+1s", "-1.5s", "1m0.5s", "1us", "500ms", "0s", "-200ms"}
 )
@@ -88,6 +95,8 @@ func genTag(t *rapid.T, cands []string, numKind string) string {
 		pool = floatParams
 	case "dur":
 		pool = durParams
+	case "iface":
+		pool = ifaceParams
 	}
 	eq := "="
 	if rapid.IntRange(0, 7).Draw(t, "eqblank") == 0 {
@@ -134,8 +143,11 @@ func assignTags(t *rapid.T, td *gen.TD, odds int) {
 			if soft {
 				o = 3*odds + 2
 			}
-			if (isInline(f) || numKind == "dur") && o > 1 {
-				o = 1 // every second inline collection and duration field
+			if (isInline(f) || numKind == "dur" || numKind == "iface") && o > 1 {
+				o = 1 // every second inline collection, duration and interface{} field
+			}
+			if numKind == "iface" && open("N-C04-2") {
+				continue // class of N-C04-2: tags of an interface{} field are not applied to values from the configuration
 			}
 			if rapid.IntRange(0, o).Draw(t, "hasv") != 0 {
 				continue
